@@ -1,1 +1,680 @@
-fn main() { eprintln!("engine not built yet"); std::process::exit(2); }
+//! Correspondence harness for M-PICO (properties C01, C02, C03).
+//!
+//! A case is a `case` line (LRU capacity, engine tag), a `prog` line (a program of the model's
+//! expression language) and a history of operations.  `run` replays the history on the real
+//! `pico` crate: the program is interpreted by a fixed family of `#[memo]` functions (one per
+//! parameter shape) that read it from a thread-local (not a pico source, so reading it registers no
+//! dependency) and bump per-function run counters.
+//!
+//! Request lines (tab separated):
+//!   case <id> <cap> <engine>     prog <nfn> <kind:expr>…      set k v | rem k | sset i v | srem i
+//!   tins m k | trem m k | call f a | look f a | retain f a | unretain f a | nevergc f a | gc
+//! Answers:  ok | noref | dead | val <v> <runs> | panic:<class> [<runs>]
+//! Expressions, prefix notation, space separated: l<n> p s g<i> t<m> c<f> + = ? h
+use std::cell::RefCell;
+use std::collections::{BTreeSet, HashMap};
+use std::panic::{catch_unwind, AssertUnwindSafe};
+use std::rc::Rc;
+
+use hx_common::Rng;
+use pico::{clear_retain, retain, Database, Key, MemoRef, RetainedQuery, SourceId, Storage};
+use pico_macros::{memo, Db, Singleton, Source};
+
+// ------------------------------------------------------------------------------------------ programs
+
+#[derive(Clone, Debug)]
+enum Expr {
+    Lit(u64),
+    Param,
+    Src(Box<Expr>),
+    Sing(u32),
+    Trk(u32),
+    Call(u32, Box<Expr>),
+    Add(Box<Expr>, Box<Expr>),
+    Eq(Box<Expr>, Box<Expr>),
+    Ite(Box<Expr>, Box<Expr>, Box<Expr>),
+    Half(Box<Expr>),
+}
+
+#[derive(Clone, Debug)]
+struct FnDef {
+    kind: u32,
+    body: Expr,
+}
+
+fn show(e: &Expr, out: &mut Vec<String>) {
+    match e {
+        Expr::Lit(n) => out.push(format!("l{}", n)),
+        Expr::Param => out.push("p".into()),
+        Expr::Src(k) => {
+            out.push("s".into());
+            show(k, out)
+        }
+        Expr::Sing(i) => out.push(format!("g{}", i)),
+        Expr::Trk(m) => out.push(format!("t{}", m)),
+        Expr::Call(f, a) => {
+            out.push(format!("c{}", f));
+            show(a, out)
+        }
+        Expr::Add(a, b) => {
+            out.push("+".into());
+            show(a, out);
+            show(b, out)
+        }
+        Expr::Eq(a, b) => {
+            out.push("=".into());
+            show(a, out);
+            show(b, out)
+        }
+        Expr::Ite(c, t, e) => {
+            out.push("?".into());
+            show(c, out);
+            show(t, out);
+            show(e, out)
+        }
+        Expr::Half(a) => {
+            out.push("h".into());
+            show(a, out)
+        }
+    }
+}
+
+fn parse_expr(toks: &[&str], pos: &mut usize) -> Option<Expr> {
+    let t = *toks.get(*pos)?;
+    *pos += 1;
+    let num = |s: &str| s.parse::<u64>().ok();
+    Some(match t.as_bytes()[0] {
+        b'l' => Expr::Lit(num(&t[1..])?),
+        b'p' => Expr::Param,
+        b's' => Expr::Src(Box::new(parse_expr(toks, pos)?)),
+        b'g' => Expr::Sing(num(&t[1..])? as u32),
+        b't' => Expr::Trk(num(&t[1..])? as u32),
+        b'c' => Expr::Call(num(&t[1..])? as u32, Box::new(parse_expr(toks, pos)?)),
+        b'+' => Expr::Add(Box::new(parse_expr(toks, pos)?), Box::new(parse_expr(toks, pos)?)),
+        b'=' => Expr::Eq(Box::new(parse_expr(toks, pos)?), Box::new(parse_expr(toks, pos)?)),
+        b'?' => Expr::Ite(
+            Box::new(parse_expr(toks, pos)?),
+            Box::new(parse_expr(toks, pos)?),
+            Box::new(parse_expr(toks, pos)?),
+        ),
+        b'h' => Expr::Half(Box::new(parse_expr(toks, pos)?)),
+        _ => return None,
+    })
+}
+
+fn parse_fn(field: &str) -> Option<FnDef> {
+    let (k, e) = field.split_once(':')?;
+    let toks: Vec<&str> = e.split(' ').filter(|s| !s.is_empty()).collect();
+    let mut pos = 0;
+    let body = parse_expr(&toks, &mut pos)?;
+    if pos != toks.len() {
+        return None;
+    }
+    Some(FnDef { kind: k.parse().ok()?, body })
+}
+
+// ------------------------------------------------------------------------------------------ database
+
+#[derive(Db)]
+struct TestDatabase {
+    storage: Storage<Self>,
+    #[tracked]
+    map0: BTreeSet<u64>,
+    #[tracked]
+    map1: BTreeSet<u64>,
+}
+
+impl TestDatabase {
+    fn new(cap: usize) -> Self {
+        Self {
+            storage: Storage::new_with_capacity(cap.max(1).try_into().unwrap()),
+            map0: BTreeSet::new(),
+            map1: BTreeSet::new(),
+        }
+    }
+}
+
+#[derive(Debug, Clone, PartialEq, Eq, Source)]
+struct Input {
+    #[key]
+    key: u64,
+    value: u64,
+}
+
+#[derive(Debug, Clone, PartialEq, Eq, Singleton)]
+struct S0(u64);
+
+#[derive(Debug, Clone, PartialEq, Eq, Singleton)]
+struct S1(u64);
+
+thread_local! {
+    static PROG: RefCell<Rc<Vec<FnDef>>> = RefCell::new(Rc::new(vec![]));
+    static RUNS: RefCell<Vec<u64>> = RefCell::new(vec![]);
+    static KEYS: RefCell<HashMap<Key, u64>> = RefCell::new(HashMap::new());
+}
+
+fn sid(k: u64) -> SourceId<Input> {
+    let id = SourceId::<Input>::new(&Input { key: k, value: 0 });
+    KEYS.with(|m| m.borrow_mut().insert(id.key, k));
+    id
+}
+
+fn key_of(id: SourceId<Input>) -> u64 {
+    KEYS.with(|m| *m.borrow().get(&id.key).expect("harness: unknown source id"))
+}
+
+fn fn_def(prog: &Rc<Vec<FnDef>>, f: u32) -> FnDef {
+    prog.get(f as usize).cloned().unwrap_or(FnDef { kind: 0, body: Expr::Lit(0) })
+}
+
+/// The body shared by the three interpreter functions: bump the counter, interpret.
+fn body(db: &TestDatabase, f: u32, a: u64) -> u64 {
+    RUNS.with(|r| {
+        if let Some(c) = r.borrow_mut().get_mut(f as usize) {
+            *c += 1
+        }
+    });
+    let prog = PROG.with(|p| p.borrow().clone());
+    let def = fn_def(&prog, f);
+    eval(db, &prog, &def.body, a)
+}
+
+#[memo(raw)]
+fn interp_u(db: &TestDatabase, f: u32, a: u64) -> u64 {
+    body(db, f, a)
+}
+
+#[memo(raw)]
+fn interp_s(db: &TestDatabase, f: u32, id: SourceId<Input>) -> u64 {
+    body(db, f, key_of(id))
+}
+
+#[memo(raw)]
+fn interp_0(db: &TestDatabase, f: u32) -> u64 {
+    body(db, f, 0)
+}
+
+fn call_raw(db: &TestDatabase, prog: &Rc<Vec<FnDef>>, f: u32, a: u64) -> MemoRef<u64> {
+    match fn_def(prog, f).kind {
+        2 => interp_0(db, f),
+        1 => interp_s(db, f, sid(a)),
+        _ => interp_u(db, f, a),
+    }
+}
+
+fn eval(db: &TestDatabase, prog: &Rc<Vec<FnDef>>, e: &Expr, a: u64) -> u64 {
+    match e {
+        Expr::Lit(n) => *n,
+        Expr::Param => a,
+        Expr::Src(k) => {
+            let kv = eval(db, prog, k, a);
+            db.get(sid(kv)).value
+        }
+        Expr::Sing(i) => {
+            if i % 2 == 0 {
+                db.get_singleton::<S0>().map_or(0, |s| s.0 + 1)
+            } else {
+                db.get_singleton::<S1>().map_or(0, |s| s.0 + 1)
+            }
+        }
+        Expr::Trk(m) => {
+            if m % 2 == 0 {
+                let view = db.get_map0();
+                view.tracked().len() as u64
+            } else {
+                let view = db.get_map1();
+                view.tracked().len() as u64
+            }
+        }
+        Expr::Call(f, arg) => {
+            let av = eval(db, prog, arg, a);
+            *call_raw(db, prog, *f, av).lookup(db)
+        }
+        Expr::Add(x, y) => {
+            let xv = eval(db, prog, x, a);
+            let yv = eval(db, prog, y, a);
+            xv.wrapping_add(yv)
+        }
+        Expr::Eq(x, y) => {
+            let xv = eval(db, prog, x, a);
+            let yv = eval(db, prog, y, a);
+            (xv == yv) as u64
+        }
+        Expr::Ite(c, t, f) => {
+            let cv = eval(db, prog, c, a);
+            if cv != 0 {
+                eval(db, prog, t, a)
+            } else {
+                eval(db, prog, f, a)
+            }
+        }
+        Expr::Half(x) => eval(db, prog, x, a) / 2,
+    }
+}
+
+fn panic_class(p: &Box<dyn std::any::Any + Send>) -> &'static str {
+    let msg: &str = if let Some(s) = p.downcast_ref::<&str>() {
+        s
+    } else if let Some(s) = p.downcast_ref::<String>() {
+        s.as_str()
+    } else {
+        ""
+    };
+    if msg.contains("Source node not found") {
+        "absent"
+    } else if msg.contains("Cyclic dependency") {
+        "cyclic"
+    } else if msg.contains("Derived node not found") {
+        "missing"
+    } else if msg.contains("Expected revision to be present") {
+        "gcmissing"
+    } else {
+        "other"
+    }
+}
+
+fn runs_str() -> String {
+    RUNS.with(|r| {
+        let r = r.borrow();
+        if r.is_empty() {
+            "-".to_string()
+        } else {
+            r.iter().map(|c| c.to_string()).collect::<Vec<_>>().join(",")
+        }
+    })
+}
+
+struct Session {
+    db: TestDatabase,
+    refs: HashMap<(u32, u64), MemoRef<u64>>,
+    guards: HashMap<(u32, u64), Vec<RetainedQuery>>,
+    dead: bool,
+}
+
+impl Session {
+    fn new(cap: usize) -> Self {
+        Session { db: TestDatabase::new(cap), refs: HashMap::new(), guards: HashMap::new(), dead: false }
+    }
+    fn defuse(&mut self) {
+        for (_, v) in self.guards.drain() {
+            for g in v {
+                g.never_garbage_collect();
+            }
+        }
+    }
+}
+
+fn norm(prog: &Rc<Vec<FnDef>>, f: u32, a: u64) -> (u32, u64) {
+    if fn_def(prog, f).kind == 2 {
+        (f, 0)
+    } else {
+        (f, a)
+    }
+}
+
+fn run_line(sess: &mut Session, fs: &[&str]) -> String {
+    let n = |i: usize| -> Option<u64> { fs.get(i).and_then(|s| s.parse::<u64>().ok()) };
+    match fs[0] {
+        "case" => {
+            sess.defuse();
+            let cap = n(2).unwrap_or(10) as usize;
+            *sess = Session::new(cap);
+            PROG.with(|p| *p.borrow_mut() = Rc::new(vec![]));
+            RUNS.with(|r| r.borrow_mut().clear());
+            return "ok".into();
+        }
+        "prog" => {
+            let mut v = vec![];
+            for f in &fs[2..] {
+                match parse_fn(f) {
+                    Some(d) => v.push(d),
+                    None => return "bad-op".into(),
+                }
+            }
+            RUNS.with(|r| *r.borrow_mut() = vec![0; v.len()]);
+            PROG.with(|p| *p.borrow_mut() = Rc::new(v));
+            return "ok".into();
+        }
+        _ => {}
+    }
+    if sess.dead {
+        return "dead".into();
+    }
+    let prog = PROG.with(|p| p.borrow().clone());
+    match (fs[0], n(1), n(2)) {
+        ("set", Some(k), Some(v)) => {
+            sess.db.set(Input { key: k, value: v });
+            "ok".into()
+        }
+        ("rem", Some(k), _) => {
+            sess.db.remove(sid(k));
+            "ok".into()
+        }
+        ("sset", Some(i), Some(v)) => {
+            if i % 2 == 0 {
+                sess.db.set(S0(v));
+            } else {
+                sess.db.set(S1(v));
+            }
+            "ok".into()
+        }
+        ("srem", Some(i), _) => {
+            if i % 2 == 0 {
+                sess.db.remove_singleton::<S0>();
+            } else {
+                sess.db.remove_singleton::<S1>();
+            }
+            "ok".into()
+        }
+        ("tins", Some(m), Some(k)) => {
+            if m % 2 == 0 {
+                sess.db.get_map0_mut().tracked().insert(k);
+            } else {
+                sess.db.get_map1_mut().tracked().insert(k);
+            }
+            "ok".into()
+        }
+        ("trem", Some(m), Some(k)) => {
+            if m % 2 == 0 {
+                sess.db.get_map0_mut().tracked().remove(&k);
+            } else {
+                sess.db.get_map1_mut().tracked().remove(&k);
+            }
+            "ok".into()
+        }
+        ("call", Some(f), Some(a)) => {
+            let f = f as u32;
+            let db = &sess.db;
+            let r = catch_unwind(AssertUnwindSafe(|| {
+                let m = call_raw(db, &prog, f, a);
+                (m, *m.lookup(db))
+            }));
+            match r {
+                Ok((m, v)) => {
+                    sess.refs.insert(norm(&prog, f, a), m);
+                    format!("val\t{}\t{}", v, runs_str())
+                }
+                Err(p) => format!("panic:{}\t{}", panic_class(&p), runs_str()),
+            }
+        }
+        ("look", Some(f), Some(a)) => match sess.refs.get(&norm(&prog, f as u32, a)) {
+            None => "noref".into(),
+            Some(m) => {
+                let db = &sess.db;
+                let m = *m;
+                match catch_unwind(AssertUnwindSafe(|| *m.lookup(db))) {
+                    Ok(v) => format!("val\t{}", v),
+                    Err(p) => format!("panic:{}", panic_class(&p)),
+                }
+            }
+        },
+        ("retain", Some(f), Some(a)) => {
+            let id = norm(&prog, f as u32, a);
+            match sess.refs.get(&id) {
+                None => "noref".into(),
+                Some(m) => {
+                    let g = retain(&sess.db, *m);
+                    sess.guards.entry(id).or_default().push(g);
+                    "ok".into()
+                }
+            }
+        }
+        ("unretain", Some(f), Some(a)) => {
+            let id = norm(&prog, f as u32, a);
+            match sess.guards.get_mut(&id).and_then(|v| v.pop()) {
+                None => "noref".into(),
+                Some(g) => {
+                    clear_retain(&sess.db, g);
+                    "ok".into()
+                }
+            }
+        }
+        ("nevergc", Some(f), Some(a)) => {
+            let id = norm(&prog, f as u32, a);
+            match sess.guards.get_mut(&id).and_then(|v| v.pop()) {
+                None => "noref".into(),
+                Some(g) => {
+                    g.never_garbage_collect();
+                    "ok".into()
+                }
+            }
+        }
+        ("gc", _, _) => {
+            let db = &mut sess.db;
+            match catch_unwind(AssertUnwindSafe(|| db.run_garbage_collection())) {
+                Ok(()) => "ok".into(),
+                Err(p) => {
+                    sess.dead = true;
+                    format!("panic:{}", panic_class(&p))
+                }
+            }
+        }
+        _ => "bad-op".into(),
+    }
+}
+
+// ------------------------------------------------------------------------------------------ generator
+
+struct G<'a> {
+    r: &'a mut Rng,
+    nfn: usize,
+    cyclic: bool,
+}
+
+impl<'a> G<'a> {
+    fn key(&mut self) -> Expr {
+        match self.r.below(10) {
+            0..=4 => Expr::Param,
+            5..=8 => Expr::Lit(self.r.below(3) as u64),
+            _ => Expr::Lit(self.r.below(5) as u64),
+        }
+    }
+    /// a callee for function `i`: a later function (acyclic by rank) unless the program is cyclic
+    fn callee(&mut self, i: usize) -> Option<u32> {
+        if self.cyclic && self.r.chance(1, 3) {
+            return Some(self.r.below(self.nfn) as u32);
+        }
+        if i + 1 >= self.nfn {
+            None
+        } else {
+            Some(self.r.range(i + 1, self.nfn - 1) as u32)
+        }
+    }
+    fn call(&mut self, i: usize) -> Expr {
+        match self.callee(i) {
+            Some(f) => {
+                let a = self.key();
+                Expr::Call(f, Box::new(a))
+            }
+            None => self.leaf(),
+        }
+    }
+    fn leaf(&mut self) -> Expr {
+        match self.r.below(12) {
+            0..=3 => Expr::Src(Box::new(self.key())),
+            4..=6 => Expr::Sing(self.r.below(2) as u32),
+            7..=8 => Expr::Trk(self.r.below(2) as u32),
+            9 => Expr::Param,
+            _ => Expr::Lit(self.r.below(4) as u64),
+        }
+    }
+    fn expr(&mut self, i: usize, depth: usize) -> Expr {
+        if depth == 0 {
+            return if self.r.chance(1, 2) { self.call(i) } else { self.leaf() };
+        }
+        match self.r.below(12) {
+            0..=2 => self.call(i),
+            3..=4 => self.leaf(),
+            5..=6 => Expr::Add(Box::new(self.expr(i, depth - 1)), Box::new(self.expr(i, depth - 1))),
+            7 => Expr::Eq(Box::new(self.expr(i, depth - 1)), Box::new(Expr::Lit(self.r.below(4) as u64))),
+            8..=9 => Expr::Ite(
+                Box::new(self.expr(i, depth - 1)),
+                Box::new(self.expr(i, depth - 1)),
+                Box::new(self.expr(i, depth - 1)),
+            ),
+            10 => Expr::Half(Box::new(self.expr(i, depth - 1))),
+            _ => Expr::Src(Box::new(self.expr(i, depth - 1))),
+        }
+    }
+    /// bodies shaped after the patterns the properties point at
+    fn body(&mut self, i: usize) -> Expr {
+        let last = i + 1 >= self.nfn;
+        match self.r.below(20) {
+            // chain link / value-preserving middle
+            0..=3 if !last => self.call(i),
+            4..=5 if !last => Expr::Half(Box::new(self.call(i))),
+            6 if !last => Expr::Eq(Box::new(self.call(i)), Box::new(Expr::Lit(self.r.below(3) as u64))),
+            7 if !last => Expr::Ite(Box::new(self.call(i)), Box::new(Expr::Lit(1)), Box::new(Expr::Lit(0))),
+            // diamond
+            8..=9 if !last => Expr::Add(Box::new(self.call(i)), Box::new(self.call(i))),
+            // singleton readers
+            10 => Expr::Sing(self.r.below(2) as u32),
+            11 => Expr::Ite(
+                Box::new(Expr::Sing(self.r.below(2) as u32)),
+                Box::new(self.leaf()),
+                Box::new(Expr::Lit(7)),
+            ),
+            12 => Expr::Trk(self.r.below(2) as u32),
+            // plain source readers
+            13..=14 => Expr::Src(Box::new(Expr::Param)),
+            15 => Expr::Add(Box::new(Expr::Src(Box::new(Expr::Lit(0)))), Box::new(Expr::Src(Box::new(Expr::Lit(1))))),
+            // reads nothing
+            16 => Expr::Lit(self.r.below(4) as u64),
+            _ => {
+                let d = self.r.range(1, 3);
+                self.expr(i, d)
+            }
+        }
+    }
+}
+
+fn gen_case(r: &mut Rng, idx: u64) -> Vec<String> {
+    let engine = std::env::var("HX_ENGINE").unwrap_or_else(|_| "c01".into());
+    let mut out = vec![];
+    let cap = match r.below(10) {
+        0..=3 => 1,
+        4..=6 => 2,
+        7..=8 => 3,
+        _ => 10,
+    };
+    out.push(format!("case\t{}\t{}\t{}", idx, cap, engine));
+    let nfn = r.range(1, 6);
+    let cyclic = r.chance(1, 25);
+    let mut g = G { r, nfn, cyclic };
+    let mut prog = vec![];
+    for i in 0..nfn {
+        let body = g.body(i);
+        let kind = match g.r.below(10) {
+            0..=5 => 0,
+            6..=7 => 1,
+            _ => 2,
+        };
+        prog.push(FnDef { kind, body });
+    }
+    let mut line = format!("prog\t{}", nfn);
+    for d in &prog {
+        let mut toks = vec![];
+        show(&d.body, &mut toks);
+        line.push_str(&format!("\t{}:{}", d.kind, toks.join(" ")));
+    }
+    out.push(line);
+    let r = g.r;
+    // shadow of the sources, to produce equal-value writes on purpose
+    let mut keyed: HashMap<u64, u64> = HashMap::new();
+    let mut sing: HashMap<u64, u64> = HashMap::new();
+    if r.chance(7, 10) {
+        for k in 0..3u64 {
+            let v = r.below(3) as u64;
+            keyed.insert(k, v);
+            out.push(format!("set\t{}\t{}", k, v));
+        }
+    }
+    if r.chance(3, 10) {
+        for i in 0..2u64 {
+            let v = r.below(3) as u64;
+            sing.insert(i, v);
+            out.push(format!("sset\t{}\t{}", i, v));
+        }
+    }
+    // a few hot (f, a) pairs: most calls repeat them
+    let nhot = r.range(1, 3);
+    let hot: Vec<(u64, u64)> = (0..nhot).map(|_| (r.below(nfn.min(3)) as u64, r.below(3) as u64)).collect();
+    let (w_eq, w_gc, w_ret) = match engine.as_str() {
+        "c02" => (50, 4, 2),
+        "c03" => (25, 16, 8),
+        _ => (30, 7, 3),
+    };
+    let len = r.range(3, 36);
+    for _ in 0..len {
+        let pick = |r: &mut Rng| -> (u64, u64) {
+            if r.chance(4, 5) {
+                *r.pick(&hot)
+            } else {
+                (r.below(nfn) as u64, r.below(4) as u64)
+            }
+        };
+        let w = r.below(100 + w_gc + 3 * w_ret);
+        if w < 20 {
+            let k = r.below(3) as u64 + if r.chance(1, 12) { 1 } else { 0 };
+            let v = match keyed.get(&k) {
+                Some(old) if r.chance(w_eq, 100) => *old,
+                _ => r.below(4) as u64,
+            };
+            keyed.insert(k, v);
+            out.push(format!("set\t{}\t{}", k, v));
+        } else if w < 25 {
+            let k = r.below(3) as u64;
+            keyed.remove(&k);
+            out.push(format!("rem\t{}", k));
+            if r.chance(2, 3) {
+                // remove-then-set
+                let v = r.below(3) as u64;
+                keyed.insert(k, v);
+                out.push(format!("set\t{}\t{}", k, v));
+            }
+        } else if w < 34 {
+            let i = r.below(2) as u64;
+            let v = match sing.get(&i) {
+                Some(old) if r.chance(w_eq, 100) => *old,
+                _ => r.below(3) as u64,
+            };
+            sing.insert(i, v);
+            out.push(format!("sset\t{}\t{}", i, v));
+        } else if w < 39 {
+            let i = r.below(2) as u64;
+            sing.remove(&i);
+            out.push(format!("srem\t{}", i));
+        } else if w < 45 {
+            out.push(format!("tins\t{}\t{}", r.below(2), r.below(3)));
+        } else if w < 48 {
+            out.push(format!("trem\t{}\t{}", r.below(2), r.below(3)));
+        } else if w < 97 {
+            let (f, a) = pick(r);
+            out.push(format!("call\t{}\t{}", f, a));
+        } else if w < 100 {
+            let (f, a) = pick(r);
+            out.push(format!("look\t{}\t{}", f, a));
+        } else if w < 100 + w_gc {
+            out.push("gc".into());
+            if r.chance(2, 3) {
+                let (f, a) = pick(r);
+                out.push(format!("call\t{}\t{}", f, a));
+            }
+        } else {
+            let (f, a) = pick(r);
+            match r.below(6) {
+                0..=2 => out.push(format!("retain\t{}\t{}", f, a)),
+                3..=4 => out.push(format!("unretain\t{}\t{}", f, a)),
+                _ => out.push(format!("nevergc\t{}\t{}", f, a)),
+            }
+        }
+    }
+    out
+}
+
+fn main() {
+    let sess = RefCell::new(Session::new(10));
+    let mut run = |fs: &[&str]| -> String { run_line(&mut sess.borrow_mut(), fs) };
+    hx_common::main_loop(&gen_case, &mut run);
+    sess.borrow_mut().defuse();
+}
